@@ -61,6 +61,10 @@ def gen_case(rng, kind):
     return {"spec": spec, "kind": kind, "parts": [int(rng.integers(1, 6)), int(rng.integers(1, 6)) if rng.random() < 0.8 else 12],
             "filter": bool(rng.random() < 0.35), "touch_cache": bool(rng.random() < 0.6), "presort": bool(rng.random() < 0.2),
             "repack": int(rng.choice([3, 7, 12])) if rng.random() < 0.2 else 0,
+            # a .cx selection (after the parent's caches were filled) as the frame to pack
+            "cx_filter": [float(v) for v in rng.uniform(0.2, 0.8, 2)] if rng.random() < 0.25 else None,
+            # the same frame object was packed before with another curve order
+            "packed_before_p": int(rng.choice([1, 3, 9, 14])) if rng.random() < 0.2 else 0,
             "npartitions": int(rng.integers(1, 13)) if rng.random() < 0.4 else int(rng.integers(1, max(2, min(12, n // 3)) + 1)), "p": int(rng.choice([1, 2, 6, 10, 15, 20]))}
 
 
@@ -98,8 +102,23 @@ def check_case(ctx, case):
                 med = float(df["val"].median())
                 ddf = ddf[ddf["val"] >= med]
                 src = src[src["val"] >= med]
+            if case.get("cx_filter") and len(src):
+                tb0 = list(total_ref(kind, gg.pylist(src[act].array)))
+                if tb0[0] == tb0[0]:
+                    ddf.partition_sindex
+                    ddf.geometry.partition_bounds
+                    fx, fy = case["cx_filter"]
+                    ok0, sel, tbx = ctx.guarded(lambda: (lambda q: (q, q.compute()))(
+                        ddf.cx[tb0[0]:tb0[0] + fx * (tb0[2] - tb0[0]), tb0[1]:tb0[1] + fy * (tb0[3] - tb0[1])]))
+                    if not ok0:
+                        return rec_raise("cx-before-pack", sel, tbx)
+                    ddf, src = sel           # the model is what the selection holds (C06 decides the selection)
+                    ctx.count("packs_of_cx_selection")
             if len(src) == 0:
                 return
+            if case.get("packed_before_p"):
+                ok0, r0, tbx = ctx.guarded(lambda: ddf.pack_partitions(npartitions=2, p=int(case["packed_before_p"])).compute())
+                ctx.count("packs_of_frame_packed_before")
             vals = gg.pylist(src[act].array)
             tbref = list(total_ref(kind, vals))
             if case.get("repack"):
@@ -131,7 +150,8 @@ def check_case(ctx, case):
         ctx.case([spec["cols"][0]["elements"], spec["cols"][1]["elements"], npin, case["filter"], k, p],
                  nontrivial=nd >= 2)
         ctx.sig(kind, f"in{min(npin, 3)}", "filter" if case["filter"] else "-",
-                "presort" if case["presort"] else "-", "repack" if case.get("repack") else "-", f"out{min(k, 4)}", f"p{p}",
+                "presort" if case["presort"] else "-", "repack" if case.get("repack") else "-", "cx" if case.get("cx_filter") else "-",
+                "again" if case.get("packed_before_p") else "-", f"out{min(k, 4)}", f"p{p}",
                 "missing" if any(v is None for v in vals) else "-")
         w = {"kind": kind, "n": len(src), "npartitions_in": npin, "npartitions": k, "p": p,
              "active": act}
